@@ -576,11 +576,28 @@ def op_api_lint(node: Any, sql: str, kwargs: Optional[dict] = None) -> dict:
 # ---- discovery (C25) -------------------------------------------------------------
 
 
+def _with_read_faults(node: Any, plan: Optional[list]):
+    """Arm a fault plan that targets READS for the duration of one op (reads are only journalled -
+    and therefore only faultable - while journal_reads is on)."""
+    d = node.disk
+    was = d.journal_reads
+    if plan:
+        d.journal_reads = True
+        d.plan = [dict(p_) for p_ in plan]
+
+    def done() -> None:
+        d.plan = []
+        d.journal_reads = was
+
+    return done
+
+
 def op_discover(node: Any, path: str, ignore_files: bool = True, exts: Optional[list] = None,
-                ignore_non_existent_files: bool = False, via: str = "func") -> dict:
+                ignore_non_existent_files: bool = False, via: str = "func", plan: Optional[list] = None) -> dict:
     from sqlfluff.core.linter.discovery import paths_from_path
 
     out: dict[str, Any] = {}
+    done = _with_read_faults(node, plan)
     try:
         if via == "func":
             kw: dict[str, Any] = {}
@@ -603,6 +620,8 @@ def op_discover(node: Any, path: str, ignore_files: bool = True, exts: Optional[
         raise
     except Exception as e:
         out["exception"] = _exc_row(e)
+    finally:
+        done()
     out["cwd"] = os.getcwd()
     return out
 
@@ -640,11 +659,12 @@ def probe_config(cfg: Any) -> dict:
 
 
 def op_effective_config(node: Any, fname: str, handle: str = "root", overrides: Optional[dict] = None,
-                        extra_config: Optional[str] = None) -> dict:
+                        extra_config: Optional[str] = None, plan: Optional[list] = None) -> dict:
     """What Linter.load_raw_file_and_config computes for one file, via a shared root config."""
     from sqlfluff.core import FluffConfig, Linter
 
     out: dict[str, Any] = {}
+    done = _with_read_faults(node, plan)
     try:
         root = node.handles.get("cfg:" + handle)
         if root is None:
@@ -657,6 +677,8 @@ def op_effective_config(node: Any, fname: str, handle: str = "root", overrides: 
         raise
     except Exception as e:
         out["exception"] = _exc_row(e)
+    finally:
+        done()
     return out
 
 
